@@ -80,6 +80,8 @@ noncomputable instance : Scipp (Fl R) where
   sqSame := fun x => ⟨R.rd (DTy.powT x.ty x.ty) (x.val ^ 2), DTy.powT x.ty x.ty⟩
   i64 := fun n => ⟨(n : ℝ), .i64⟩
   half := ⟨1 / 2, .f64⟩
+  asCommon4 := fun x a b c d =>
+    ⟨castVal R (DTy.asCommon4 x.ty a.ty b.ty c.ty d.ty) x, DTy.asCommon4 x.ty a.ty b.ty c.ty d.ty⟩
 
 /-- `u` covers the rounding of element type `t` -/
 def TyOk (R : Rounding) (u : ℝ) (t : DTy) : Prop := t = .f32 → R.u32 ≤ u
